@@ -103,7 +103,16 @@ fn main() {
                     println!("loaded");
                     let tree = oracle::tree::parse_python(&source);
                     let functions = tree_sitter_graph::functions::Functions::stdlib();
-                    let vars = tree_sitter_graph::Variables::new();
+                    // every declared global is bound (a list for `*` / `+`), so that the run gets
+                    // as far as matching the queries
+                    let mut vars = tree_sitter_graph::Variables::new();
+                    for g in &file.globals {
+                        let v = match g.quantifier {
+                            tree_sitter::CaptureQuantifier::ZeroOrMore | tree_sitter::CaptureQuantifier::OneOrMore => tree_sitter_graph::graph::Value::List(vec!["probe".to_string().into()]),
+                            _ => tree_sitter_graph::graph::Value::String("probe".to_string()),
+                        };
+                        let _ = vars.add(g.name.clone(), v);
+                    }
                     let config = tree_sitter_graph::ExecutionConfig::new(&functions, &vars).lazy(lazy);
                     match file.execute(&tree, &source, &config, &tree_sitter_graph::NoCancellation) {
                         Ok(g) => println!("graph with {} nodes", g.node_count()),
